@@ -44,7 +44,7 @@ func ValidateResponse(ctx context.Context, input *ResponseValidationInput) error
 
 	// Find input for the current status
 	responses := route.Operation.Responses
-	if responses.Len() == 0 {
+	if responses.Len() == 0 && !options.IncludeResponseStatus {
 		return nil
 	}
 	responseRef := responses.Status(status) // Response
